@@ -3,6 +3,7 @@ import MdwModel.Driver.Live
 import MdwModel.Model.Regs
 import MdwModel.Model.Maps
 import MdwModel.Model.Stack
+import MdwModel.Model.Gather
 import MdwModel.Generated.Source
 namespace Mdw.Drv.LiveProps
 open Mdw Mdw.Drv Mdw.Drv.Live
@@ -427,6 +428,12 @@ def runLive07 (kv : List (String × String)) : IO Res := do
   if ml.length < expected then return .propfail "memory list shorter than stacks + application regions" tags
   return .ok tags (some s!"{ml.length}/{lc.cfg.app.map (·.2)}/{tags.eraseDups}")
 
+/-- the snapshot of the target's memory as `copy_from_process` -/
+def snapRead (mem : List (Nat × ByteArray)) (a n : Nat) : Option Bytes :=
+  match mem.find? (fun (s, b) => s ≤ a && a + n ≤ s + b.size) with
+  | some (s, b) => some (b.extract (a - s) (a - s + n)).toList
+  | none => none
+
 /-- C06 on a real dump: every listed thread's captured stack against the model's region -/
 def runLive06 (kv : List (String × String)) : IO Res := do
   let lc ← match ← loadLive kv with
@@ -448,6 +455,29 @@ def runLive06 (kv : List (String × String)) : IO Res := do
     if exp.spin then continue
     let crashThread := lc.cfg.crash.isSome && t.tid == lc.cfg.blamed
     let sp := if crashThread then greg lc.cfg.gregs REG_RSP else exp.rsp
+    -- the composed model of fill_thread_stack (Model/Gather.lean; Theorems/EndToEnd.lean) against the record
+    let gprincipal := lc.cfg.principal.bind (fun addr => (findMappingNoBias ms addr).map (fun m => (m.sysStart, m.sysEnd)))
+    let gip := if crashThread then greg lc.cfg.gregs REG_RIP else exp.rip
+    match gatherStack ⟨ms, 4096, snapRead lc.mem⟩ ⟨lc.cfg.limit, lc.cfg.sanitize, lc.cfg.principal.isSome, gprincipal⟩
+        i n currPos crashThread sp gip with
+    | .ok none =>
+      if t.stackSize != 0 then
+        return .mismatch s!"thread #{i} ({t.tid}) sp {sp}: a stack [{t.stackStart},+{t.stackSize}) was captured where the composed model records none" tags
+      if t.stackStart != sp then
+        return .mismatch s!"thread #{i} ({t.tid}): no stack captured, but the record's start {t.stackStart} is not the stack pointer {sp}" tags
+      tags := "gather.none" :: tags
+    | .ok (some (gs, gb)) =>
+      if (t.stackStart, t.stackSize) != (gs, gb.length) then
+        return .mismatch s!"thread #{i} ({t.tid}) sp {sp}: captured [{t.stackStart},+{t.stackSize}), composed model [{gs},+{gb.length})" tags
+      let some got := lc.img.bytes t.stackRva t.stackSize | return .propfail "stack bytes outside the image" tags
+      -- below the stack pointer the target may have moved on since the snapshot (unsanitized copies only)
+      let from_ := if lc.cfg.sanitize then 0 else sp - gs
+      if got.drop from_ != gb.drop from_ then
+        let k := (((got.drop from_).zip (gb.drop from_)).findIdx? (fun (a, b) => a != b)).getD 0
+        return .mismatch s!"thread #{i} ({t.tid}): captured stack differs from the composed model at +{from_ + k}: image {got.getD (from_ + k) 0}, model {gb.getD (from_ + k) 0}" tags
+      tags := "gather.checked" :: tags
+    | .err _ => tags := "gather.uncovered" :: tags
+    | _ => tags := "gather.panic" :: tags
     match getStackInfo ms 4096 sp with
     | .ok (valid, len) =>
       let (rs, rl) := capRegion valid len sp (maxStackLen lc.cfg.limit extra i crashThread)
